@@ -23,7 +23,7 @@ PID = "C12"
 EPS32 = float(np.finfo(np.float32).eps)
 
 BOUNDS = {
-    "quick": dict(Ns=[1, 2, 5, 8, 13], dtypes=["float64", "complex128", "complex64", "int16"], shapes=[(), (2,), (3, 2)],
+    "quick": dict(Ns=[1, 2, 5, 8, 13], dtypes=["float64", "complex128", "complex64", "int16", "int8"], shapes=[(), (2,), (3, 2)],
                   rates=[("1Hz", "s"), ("3kHz", "ms"), ("800MHz", "us")], long_N=[40000]),
     "thorough": dict(Ns=[1, 2, 3, 4, 5, 7, 8, 12, 13, 16], dtypes=["float32", "float64", "complex64", "complex128", "int16", "int64"],
                      shapes=[(), (2,), (3, 2)], rates=[("1Hz", "s"), ("3kHz", "ms"), ("800MHz", "us"), ("third_Hz", "s")],
@@ -288,7 +288,12 @@ def one_call(res, case, z, zdata, XL, N, is_c, T0, srx, targ, teff, delta, n, fo
     for nyq in convs:
         E = interp_rows(N, teff, n, nyq) @ XL
         exps.append(E if is_c else E.real)
-    tol = 16 * EPS32 + math.pi * float(delta)
+    # (double-precision accuracy for everything but single-precision data: integers of any width are transformed in double)
+    single = np.dtype(case["dtype"]).name in ("float16", "float32", "complex64")
+    tol = (16 * EPS32 if single else 4096 * float(np.finfo(np.float64).eps) * max(1.0, float(np.max(np.abs(XL))))) + math.pi * float(delta)
+    if abs(teff - round(teff)) <= F(1, 10 ** 8):
+        # (a request within the documented resolution of 1e-8 sample of a whole sample denotes that sample)
+        tol += math.pi * 1e-8 * max(1.0, float(np.max(np.abs(XL))))
     worst = 0.0
     for idx in (np.ndindex(*ss) if ss else [()]):
         col = y[(slice(None),) + idx].astype(dft.CLD)
